@@ -50,10 +50,11 @@ CLAIMS = {
   "DESIGN.md C11", "Lean 4 totality proofs for the lexical layer + mutation-based exploration under sanitizers"),
  "C10": ("proof",
   "Lean theorem scan_literal: the transliterated state machine of mpq_EGlpNumReadStrXc consumes exactly, and yields exactly the rational denoted "
-  "by, every literal [±]digits[.digits][e[±]digits] with any number of digits (0.1 is 1/10); plus totality, consumption bound and absence of "
-  "division by zero. Tied to /repo by differential testing of the exported scanner on grammar-derived literals, fractions, near-literals and "
+  "by, every literal [±]digits[.digits][e[±]digits] with any number of mantissa digits and an exponent below 100000 (0.1 is 1/10); theorem "
+  "scan_exponent_guard: a longer exponent makes the scanner give up with nothing read (the guard of fix d278e6f is part of the model, so l_exp "
+  "stays below 100000 on both sides); plus totality, consumption bound and absence of division by zero. Tied to /repo by differential testing of the exported scanner on grammar-derived literals, fractions, near-literals and "
   "random strings. Partial: layout/keyword/default-bound rules of the readers are tied by the file-level stream (when present) but not proved.",
-  COMMON_NOTE + "Exponents limited to 4 digits (int l_exp in C). Token-level reader semantics not proved.",
+  COMMON_NOTE + "Token-level reader semantics not proved.",
   "DESIGN.md C10", "Lean 4 proof over a model of the number scanner + model/implementation correspondence check"),
  "C14": ("proof",
   "Lean theorem decode_encode: for every shape and every basis with exactly nrows basic entries the transliterated two-pointer writer succeeds "
